@@ -47,9 +47,24 @@ def roundHalfAway (num : Int) (den : Nat) : Int :=
 /-- exact fixed-point encoding of the rational `xn/xd` at the rational scale `sn/sd`. -/
 def encodeFP (xn : Int) (xd sn sd : Nat) : Int := roundHalfAway (xn * sn) (xd * sd)
 
+/-- `SingleFloat64ToFixedPointCRT` with both of its branches: the product `|value|·scale` is formed in float64;
+    from `2^64` on the rounding is done with 53-bit `big.Float`s (`big.NewFloat(value) + 0.5`, `Int`), below `2^64` in
+    a machine word (`uint64(value + 0.5)`, defined because `value + 0.5 ≤ 2^64 − 2^11 + 1/2` rounds below `2^64`).
+    Both branches compute `fixedPoint 53` (`singleFloat64_eq_fixedPoint`); the threshold must be exactly `2^64`. -/
+def singleFloat64 (x : SD) (scale : Dy) : Int :=
+  if x.mag.m = 0 then 0 else
+    let t := Dy.mul 53 x.mag scale
+    let u := let h := addHalf t; roundRat 53 h.m 1 h.e
+    let mag : Nat := if (Dy.norm 1 64).cmp t != .gt then u.toNat /- big.Float branch -/ else u.toNat /- word branch -/
+    if x.neg then - (mag : Int) else (mag : Int)
+
 /-- residues of an integer coefficient (Go: `tmp.Mod(xInt, Q)`, Euclidean; the extra `+Q` lattigo
     adds for negative values is absorbed by the following NTT's final reduction). -/
 def toRNS (c : Int) (qs : List Nat) : List Nat := qs.map (fun (q : Nat) => (c % (q : Int)).toNat)
+
+/-- the residues written by `*ToFixedPointCRT` (reduced; the Go code may leave `q` for `-0` or an unreduced small
+    word, which the following NTT reduces): working precision `P` (`53`: float64 path). -/
+def fixedPointRNS (P : Nat) (x : SD) (scale : Dy) (qs : List Nat) : List Nat := toRNS (fixedPoint P x scale) qs
 
 /-- centred lift of a residue mod `Q` (`c ≥ Q>>1 ↦ c − Q`). -/
 def centerLift (r Q : Nat) : Int := if Q / 2 ≤ r then (r : Int) - (Q : Int) else (r : Int)
